@@ -9,6 +9,7 @@ THEOREMS = [
     "XcmModel.C03.C03_bad_refuses", "XcmModel.C03.C03_only_accepted_delivered_once",
     "XcmModel.C03.accepted_only_ok", "XcmModel.C01.C01_exact_delivery",
     "XcmModel.C03.C03_ux_failed_send_no_trace", "XcmModel.C03.C03_ux_size_checks_first",
+    "XcmModel.C03btls.C03_btls_finish_success_means_flushed", "XcmModel.C03btls.C03_btls_retained_means_not_finished",
     "XcmModel.Api.msgBsend_acc", "XcmModel.C03.C03_blocking_send_no_false_failure", "XcmModel.C03.C03_blocking_send_accepted_once",
 ]
 
@@ -73,6 +74,11 @@ def run(ctx):
     ctx.assumptions += ["lower-layer failure is terminal (C06 of btcp/btls); blocking-mode xcm_send (poll/EINTR) is outside this check"]
     ux.run_part(ctx, 40 if quick else 2000, "c03")
     ctx.rule += "; unit_ux: ux_send refused by the size checks or by the kernel (EAGAIN, EINTR, EPIPE...) vs model: nothing handed to the kernel, counters unchanged"
+    # the TLS byte stream below the tls transport: what btls_send / btls_finish report about retained output
+    from gen import btls as _btls
+    _btls.run_part(ctx, 10 if quick else 300, exhaustive=True)
+    ctx.rule += ("; unit_btls: the real xcm_tp_btls.c with scripted OpenSSL answers vs the Lean Btls model (send accepts and retains, "
+                 "finish reports success only once nothing is retained)")
     # blocking-mode wrappers of xcm.c (bytestream_bsend / msg_bsend / socket_finish)
     aexe = api.build()
     amon = api.Monitor(ctx)
